@@ -86,6 +86,12 @@ type obsT struct {
 	Ran     bool     `json:"ran"`
 	Pre     *view    `json:"pre,omitempty"`  // session as handed to the handler
 	Post    *view    `json:"post,omitempty"` // after the handler's action
+	Mid     []*view  `json:"after_each_call,omitempty"` // compound request: the session as read after each of its API calls
+	// SessObj says where the *Session object handed to this request comes from: "new" (never
+	// seen in this history), "reused:same-client", "reused:other-client" (the pool handed out
+	// an object another client's request used earlier in the history)
+	SessObj  string `json:"session_object,omitempty"`
+	drewPrev bool   // the object is the one the previous session-carrying request used
 	Err     string   `json:"err,omitempty"`  // error of store.Get / GetByID / an action
 	Panic   string   `json:"panic,omitempty"`
 	Gen     []string `json:"generated,omitempty"` // ids the KeyGenerator produced during this request
@@ -120,6 +126,11 @@ type world struct {
 	m       *model
 	obs     *obsT
 
+	op       Op                         // the operation being executed
+	who      string                     // the client of the request being executed: A | B | M | adm
+	sessUser map[*session.Session]string // every *Session object a handler of this history was handed -> its last user
+	prevSess *session.Session           // the object the previous session-carrying request was handed
+
 	fctx        *fasthttp.RequestCtx // Ctx=shared: the one RequestCtx of this history
 	lastID      string               // Ctx=shared: the id the previous id-carrying request on fctx presented
 	overwritten bool                 // the last request overwrote another id of the same length in the shared request buffers
@@ -146,6 +157,24 @@ func sessView(s *session.Session) *view {
 	return v
 }
 
+// noteSession records which *Session object the current request was handed. Only identity is
+// used (pointers never reach signatures or the state key).
+func (w *world) noteSession(s *session.Session) {
+	o := w.obs
+	prev, seen := w.sessUser[s]
+	switch {
+	case !seen:
+		o.SessObj = "new"
+	case prev == w.who:
+		o.SessObj = "reused:same-client"
+	default:
+		o.SessObj = "reused:other-client"
+	}
+	o.drewPrev = seen && w.prevSess == s
+	w.sessUser[s] = w.who
+	w.prevSess = s
+}
+
 func errStr(err error) string {
 	if err == nil {
 		return ""
@@ -154,7 +183,7 @@ func errStr(err error) string {
 }
 
 func newWorld(cfg Cfg) *world {
-	w := &world{cfg: cfg}
+	w := &world{cfg: cfg, sessUser: map[*session.Session]string{}}
 	w.m = newModel(cfg)
 	w.setClock()
 	session.VerifResetPools()
@@ -196,10 +225,36 @@ func newWorld(cfg Cfg) *world {
 			o.Err = "session.FromContext returned nil"
 			return nil
 		}
+		w.noteSession(m.Session)
 		o.Pre = sessView(m.Session)
 		act, k, v := c.Get("X-Act"), utils.CopyString(c.Get("X-K")), utils.CopyString(c.Get("X-V"))
 		var err error
 		switch act {
+		case "seq": // several API calls in this one request, the session read after each
+			for _, a := range w.op.Seq {
+				switch a.Name {
+				case "get":
+					_ = m.Get(a.K)
+				case "set":
+					m.Set(a.K, a.V)
+				case "del":
+					m.Delete(a.K)
+				case "destroy":
+					err = m.Destroy()
+				case "regen":
+					err = m.Session.Regenerate()
+				case "reset":
+					err = m.Reset()
+				case "save":
+					err = m.Session.Save() // documented: no effect on a middleware-managed session
+				default:
+					panic("harness: unknown call " + a.Name)
+				}
+				if err != nil {
+					break
+				}
+				o.Mid = append(o.Mid, sessView(m.Session))
+			}
 		case "get":
 			_ = m.Get("k1")
 		case "set":
@@ -233,10 +288,37 @@ func newWorld(cfg Cfg) *world {
 			return nil
 		}
 		defer sess.Release()
+		w.noteSession(sess)
 		o.Pre = sessView(sess)
 		act, k, v := c.Get("X-Act"), utils.CopyString(c.Get("X-K")), utils.CopyString(c.Get("X-V"))
 		save := true
 		switch act {
+		case "seq": // several API calls in this one request; nothing is saved unless the sequence says so
+			save = false
+			for _, a := range w.op.Seq {
+				switch a.Name {
+				case "get":
+					_ = sess.Get(a.K)
+				case "set":
+					sess.Set(a.K, a.V)
+				case "del":
+					sess.Delete(a.K)
+				case "destroy":
+					err = sess.Destroy()
+				case "regen":
+					err = sess.Regenerate()
+				case "reset":
+					err = sess.Reset()
+				case "save":
+					err = sess.Save()
+				default:
+					panic("harness: unknown call " + a.Name)
+				}
+				if err != nil {
+					break
+				}
+				o.Mid = append(o.Mid, sessView(sess))
+			}
 		case "get":
 			save = false
 		case "touch":
@@ -297,6 +379,7 @@ func newWorld(cfg Cfg) *world {
 				o.Err = err.Error()
 				return nil
 			}
+			w.noteSession(sess)
 			o.Pre = sessView(sess)
 			if act == "getbyidset" {
 				sess.Set(k, v)
@@ -458,7 +541,16 @@ func (w *world) exec(op Op) (o *obsT, na bool) {
 	}
 	o = &obsT{}
 	w.obs = o
+	w.op = op
 	w.gen = w.gen[:0]
+	switch op.Kind {
+	case kClient:
+		w.who = clientNames[op.Client]
+	case kMal:
+		w.who = "M"
+	default:
+		w.who = "adm"
+	}
 	var req *fasthttp.Request
 	switch op.Kind {
 	case kClient:
